@@ -561,6 +561,30 @@ def _add_bounded(self, fn, du, t, ops, only_first=False):
 
 def _is_count(du, v, depth=0):
     v = strip_casts(v)
+    if v[0] == "place" and depth < 4:
+        # the Ok payload of a read (`match read(..) { Ok(n) => n, .. }`), or a local whose every definition is a constant or a count
+        p = tuple(e for e in v[1][1] if e != "*")
+        ds = du.defs.get(v[1][0], [])
+        if len(p) == 2 and p[0][0] == "d" and p[0][1] in ("Ok", "Continue") and p[1][0] == "f" and p[1][1] == 0:
+            if len(ds) == 1 and ds[0][0] == "call":
+                return _is_count_result(du, du.val_call(ds[0][3], 0, ds[0][1]))
+            return False
+        if not p and ds:
+            for d in ds:
+                if d[0] == "assign" and d[3]["k"] == "use":
+                    o = d[3]["ops"][0]
+                    if o.get("k") == "const" and isinstance(o.get("v"), int):
+                        continue
+                    if o.get("k") in ("copy", "move") and _is_count(du, ("place", (o["l"], tuple(place_key(o)[1]))), depth + 1):
+                        continue
+                    return False
+                elif d[0] == "call":
+                    if not _is_count(du, du.val_call(d[3], 0, d[1]), depth + 1):
+                        return False
+                else:
+                    return False
+            return True
+        return False
     if v[0] == "call" and v[1]:
         n = v[1]
         if n.endswith("::len") or n.endswith("::count"):
@@ -595,6 +619,12 @@ def _has_scheme_and_authority(du, v, depth=0):
         return _has_scheme_and_authority(du, du.val_place(v[1]), depth + 1)
     if v[0] == "call" and v[1] and is_view_call(v[1]) and v[2]:
         return _has_scheme_and_authority(du, v[2][0], depth + 1)
+    if v[0] == "call" and v[1] in ("std::fmt::format", "alloc::fmt::format", "std::hint::must_use"):
+        from .fmtargs import format_parts
+        fp = format_parts(du, v)
+        if fp is not None and fp[0] and fp[0][0][0] == "lit" and re.match(r"[a-z][a-z0-9+.-]*://[A-Za-z0-9.-]+($|/)", fp[0][0][1] + ("/" if len(fp[0]) > 1 else "")) and re.fullmatch(r"[a-z][a-z0-9+.-]*://[A-Za-z0-9.-]+", fp[0][0][1]):
+            return True
+        return False
     if v[0] == "call" and v[1] in ("std::slice::<impl [T]>::join", "std::slice::<impl [T]>::concat") and v[2]:
         if v[1].endswith("join") and not (len(v[2]) == 2 and v[2][1][0] == "const" and v[2][1][1] == ""):
             return False
